@@ -244,7 +244,7 @@ def w_programs(ctx, rng, i):
 
 
 def w_compare(ctx, rng, i):
-    n = int(rng.choice([1, 2, 3, 7, 16, 101, 1024]))
+    n = core.long_or(rng, i, int(rng.choice([1, 2, 3, 7, 16, 101, 1024])))
     kind = ["nonneg_real", "nonneg_real_noise", "real_any", "complex"][i % 4]
     thr_form = ["scalar", "npscalar", "list", "array", "esignal", "len1", "int", "npint", "int_array", "tuple"][int(rng.integers(10))]
     scale = float(10 ** rng.uniform(-3, 2)) if i % 5 else float(10 ** rng.uniform(-12, -6))     # down to nA/pA-scale photocurrents
